@@ -1,4 +1,90 @@
-(* placeholder so that the pipeline can be exercised; replaced by the real theorems *)
-From SV Require Import Names Rep.
-Theorem C05_placeholder : True. Proof. exact I. Qed.
-Print Assumptions C05_placeholder.
+(* C05 -- a rejected request raises KeyError/ValueError and changes nothing.
+   Theorem statements only; proofs in Fresh.v / Atomic.v. *)
+From Coq Require Import String ZArith Bool Arith List.
+From SV Require Import Names NamesFacts Rep Fresh Complex Atomic.
+Import ListNotations.
+
+(* addSimplex (by faces / a point): whatever the faces, name and attributes, a rejection leaves
+   every observable field of the representation as it was (the private auto-name counter and the
+   dict allocator may have advanced) and the exception is KeyError or ValueError -- in particular
+   never the model's OutOfFuel, i.e. the name search always terminates *)
+Theorem C05_addSimplex_atomic :
+  forall r fs id attr r' e, addSimplex r fs id attr = (r', Raise e) -> same_obs r r' /\ kv e.
+Proof. exact addSimplex_atomic. Qed.
+Print Assumptions C05_addSimplex_atomic.
+
+(* same observable fields => every read-only query answers the same *)
+Theorem C05_same_obs_same_answers :
+  forall r r', same_obs r r' ->
+  (forall s, orderOf r' s = orderOf r s) /\ (forall s, indexOf r' s = indexOf r s) /\
+  (forall s, faces r' s = faces r s) /\ (forall s, cofaces r' s = cofaces r s) /\
+  (forall s, basisOf r' s = basisOf r s) /\ (forall s, containsSimplex r' s = containsSimplex r s) /\
+  (forall k, simplicesOfOrder r' k = simplicesOfOrder r k) /\ (forall b, simplices r' b = simplices r b) /\
+  (forall k, boundaryOperator r' k = boundaryOperator r k) /\ maxOrder r' = maxOrder r /\
+  (forall s, getAttributes r' s = getAttributes r s).
+Proof. exact same_obs_queries. Qed.
+Print Assumptions C05_same_obs_same_answers.
+
+Theorem C05_relabelSimplex_atomic :
+  forall r s q r' e, relabelSimplex r s q = (r', Raise e) -> r' = r /\ kv e.
+Proof. exact relabelSimplex_atomic. Qed.
+Print Assumptions C05_relabelSimplex_atomic.
+
+Theorem C05_forceDelete_atomic :
+  forall r s r' e, forceDeleteSimplex r s = (r', Raise e) -> r' = r /\ e = KeyError.
+Proof. exact forceDeleteSimplex_atomic. Qed.
+Print Assumptions C05_forceDelete_atomic.
+
+(* the algorithms of base.py: unknown simplex / non-point in a basis / duplicate name / overlapping
+   copy target / colliding renaming are detected before anything is written *)
+Theorem C05_delete_unknown :
+  forall r s, containsSimplex r s = false -> deleteSimplex r s = (r, Raise KeyError).
+Proof. exact deleteSimplex_unknown. Qed.
+Print Assumptions C05_delete_unknown.
+
+Theorem C05_restrict_not_a_basis :
+  forall r bs e, c_isBasis r bs true = Raise e -> restrictBasisTo r bs = (r, Raise e) /\ kv e.
+Proof. exact restrictBasisTo_not_a_basis. Qed.
+Print Assumptions C05_restrict_not_a_basis.
+
+Theorem C05_subdivide_unknown :
+  forall r s pts, containsSimplex r s = false -> barycentricSubdivide r s pts = (r, Raise KeyError).
+Proof. exact barycentricSubdivide_unknown. Qed.
+Print Assumptions C05_subdivide_unknown.
+
+Theorem C05_subdivide_point :
+  forall r s i pts, assoc s (r_simp r) = Some (0, i) -> barycentricSubdivide r s pts = (r, Raise ValueError).
+Proof. exact barycentricSubdivide_point. Qed.
+Print Assumptions C05_subdivide_point.
+
+Theorem C05_ensureBasis_non_point :
+  forall r bs attr e, ensure_check rep containsSimplex orderOf r bs = Raise e -> c_ensureBasis r bs attr = (r, Raise e).
+Proof. exact ensureBasis_non_point. Qed.
+Print Assumptions C05_ensureBasis_non_point.
+
+Theorem C05_addSimplexWithBasis_duplicate_name :
+  forall r bs n attr, bs <> [] -> containsSimplex r n = true ->
+  c_addSimplexWithBasis r bs (Some n) attr = (r, Raise KeyError).
+Proof. exact addSimplexWithBasis_duplicate_name. Qed.
+Print Assumptions C05_addSimplexWithBasis_duplicate_name.
+
+Theorem C05_copy_into_overlap :
+  forall hp src target, length (intern (map fst src) (simplices target false)) <> 0 ->
+  copy_into hp src target = (hp, target, Raise ValueError).
+Proof. exact copy_into_overlap. Qed.
+Print Assumptions C05_copy_into_overlap.
+
+Theorem C05_relabel_rejected_by_check :
+  forall r rn st e, relabel_check rn rl0 (simplices r false) (simplices r false) = (st, Raise e) ->
+  relabel r rn = (r, st, Raise e).
+Proof. exact relabel_rejected_by_check. Qed.
+Print Assumptions C05_relabel_rejected_by_check.
+
+(* non-vacuity: a triangle with a dangling edge; a duplicate edge below the top order is rejected
+   and every field is unchanged *)
+Definition tri : rep :=
+  fst (c_addSimplexWithBasis (fst (c_addSimplexWithBasis (empty_rep 1) [NInt 1; NInt 2; NInt 3] (Some (NInt 9)) None))
+                             [NInt 3; NInt 4] None None).
+Example C05_example_duplicate_edge :
+  exists r', addSimplex tri [NInt 1; NInt 2] (Some (NInt 77)) (Some (0, 0)) = (r', Raise KeyError) /\ r' = tri.
+Proof. eexists. split; vm_compute; reflexivity. Qed.
